@@ -14,8 +14,8 @@ META = {
              "address of the byte that follows it in the image; --lst writes <first output minus its format suffix>.lst beside the first output",
     "technique": "CrossHair symbolic execution of Compiler.generate_listing and of main_cli's listing branch with symbolic symbol values, label "
                  "distances and link base; z3 decides membership, order and number rendering for all values in the stated windows",
-    "bounds": "2..4 symbols in 1..2 files; ordering: three symbols with values in -2..2 (thorough -4..4) (every tie and inversion); rendering: one symbol over "
-              "[-600, 600], [2^16-16, 2^16+16], [2^18-4, 2^18+4] (oct() is realised by CrossHair); label distances 0..2 (thorough 0..4); base 0..2 and 510..513",
+    "bounds": "2..4 symbols in 1..2 files; ordering: three symbols with values in -2..2 (thorough -3..3; four symbols in -1..1) (every tie and inversion); rendering: one symbol over "
+              "[-300, 300] (quick [-70, 70]), [2^16-16, 2^16+16], [2^18-4, 2^18+4] (oct() is realised by CrossHair); label distances 0..2 (thorough 0..3); base 0..2 and 510..513",
     "outside": ["values outside the rendering windows", "more than 4 symbols per file"],
     "structure": "constants and labels, one and two files, local labels (must not be listed), output selectors -o *.bin / -o raw / --implicit-bin / "
                  "make_bin / none",
@@ -201,13 +201,13 @@ def h_lstpath(params, vals, ctx):
 
 def obligations(tier, seed):
     obs = []
-    for nm, win in (("small", [-600, 600] if tier == "thorough" else [-70, 70]), ("16bit", [65536 - 16, 65536 + 16]), ("18bit", [2 ** 18 - 4, 2 ** 18 + 4]), ("neg16", [-65536 - 8, -65536 + 8])):
+    for nm, win in (("small", [-300, 300] if tier == "thorough" else [-70, 70]), ("16bit", [65536 - 16, 65536 + 16]), ("18bit", [2 ** 18 - 4, 2 ** 18 + 4]), ("neg16", [-65536 - 8, -65536 + 8])):
         obs.append(Ob(oid=f"render/{nm}", harness=P + "h_render", params={"window": win}, vars={"V": "int"}, timeout=900))
-    obs.append(Ob(oid="order/3", harness=P + "h_order", params={"names": ["mid", "Alpha", "zed"], "span": 4 if tier == "thorough" else 2}, vars={"V1": "int", "V2": "int", "V3": "int"}, timeout=1200))
+    obs.append(Ob(oid="order/3", harness=P + "h_order", params={"names": ["mid", "Alpha", "zed"], "span": 3 if tier == "thorough" else 2}, vars={"V1": "int", "V2": "int", "V3": "int"}, timeout=1200))
     obs.append(Ob(oid="order/2+file2", harness=P + "h_order", params={"names": ["b", "a"], "second": True}, vars={"V1": "int", "V2": "int"}, timeout=600))
     if tier == "thorough":
-        obs.append(Ob(oid="order/4", harness=P + "h_order", params={"names": ["d", "b", "a", "c"]}, vars={f"V{i}": "int" for i in range(1, 5)}, timeout=3000))
-    obs.append(Ob(oid="labels", harness=P + "h_labels", params={"dmax": 4 if tier == "thorough" else 2}, vars={"B": "int", "N": "int", "K": "int"},
+        obs.append(Ob(oid="order/4", harness=P + "h_order", params={"names": ["d", "b", "a", "c"], "span": 1}, vars={f"V{i}": "int" for i in range(1, 5)}, timeout=3000))
+    obs.append(Ob(oid="labels", harness=P + "h_labels", params={"dmax": 3 if tier == "thorough" else 2}, vars={"B": "int", "N": "int", "K": "int"},
                   timeout=3000 if tier == "thorough" else 900))
     obs.append(Ob(oid="labels/late-link", harness=P + "h_labels", params={"dmax": 2, "late": True}, vars={"B": "int", "N": "int", "K": "int"}, timeout=900))
     for sel in ("none", "o-bin", "o-BIN", "o-raw", "implicit", "make_bin", "make_raw+make_bin", "make+o"):
